@@ -26,7 +26,7 @@ import (
 
 // c09Op is one operation of a client task.
 type c09Op struct {
-	Op       string `json:"op"` // render | js | compile | parse
+	Op       string `json:"op"` // render | render-shared | js | compile | parse
 	Template string `json:"template,omitempty"`
 	Data     int    `json:"data,omitempty"`
 	IJ       int    `json:"ij,omitempty"`
@@ -114,9 +114,29 @@ func smallOpts() gen.Opts {
 }
 
 // execOp performs one operation against the shared compiled bundle.
-func execOp(op c09Op, cc *sut.Compiled, dataMaps, ijMaps []data.Map, cat soymsg.Bundle) opResult {
+func execOp(op c09Op, cc *sut.Compiled, dataMaps, ijMaps []data.Map, cat soymsg.Bundle, shared map[string]*soyhtml.Renderer) opResult {
 	var r opResult
 	switch op.Op {
+	case "render-shared":
+		// one configured *Renderer per (template, $ij, catalogue), executed by several tasks at once
+		rd := shared[sharedKey(op)]
+		if rd == nil {
+			r.esc = "harness: no shared renderer"
+			return r
+		}
+		var buf bytes.Buffer
+		func() {
+			defer func() {
+				if p := recover(); p != nil {
+					if simrt.IsAbort(p) {
+						panic(p)
+					}
+					r.esc = fmt.Sprint(p)
+				}
+			}()
+			r.err = rd.Execute(&buf, dataMaps[op.Data]) != nil
+		}()
+		r.out = buf.Bytes()
 	case "render":
 		var buf bytes.Buffer
 		var c soymsg.Bundle
@@ -166,6 +186,26 @@ func execOp(op c09Op, cc *sut.Compiled, dataMaps, ijMaps []data.Map, cat soymsg.
 
 func opKey(op c09Op) string { return fmt.Sprintf("%+v", op) }
 
+func sharedKey(op c09Op) string { return fmt.Sprintf("%s|%d|%v", op.Template, op.IJ, op.Cat) }
+
+// sharedRenderers builds the Renderer objects that several tasks will execute concurrently.
+func sharedRenderers(cs *c09One, cc *sut.Compiled, ijMaps []data.Map, cat soymsg.Bundle) map[string]*soyhtml.Renderer {
+	out := map[string]*soyhtml.Renderer{}
+	for _, t := range cs.Tasks {
+		for _, op := range t {
+			if op.Op != "render-shared" || out[sharedKey(op)] != nil || op.IJ >= len(ijMaps) {
+				continue
+			}
+			rd := cc.Tofu.NewRenderer(op.Template).Inject(ijMaps[op.IJ])
+			if op.Cat {
+				rd.WithMessages(cat)
+			}
+			out[sharedKey(op)] = rd
+		}
+	}
+	return out
+}
+
 type c09Outcome struct {
 	res    *simrt.Result
 	fail   *wk.Failure
@@ -192,7 +232,7 @@ func c09Run(cs *c09One, replay bool) c09Outcome {
 		refs    = map[string]opResult{}
 		nops    int
 	)
-	res := simrt.Run(simrt.Config{Budget: 400_000_000, Chooser: ch, RecordSwitchPairs: 4096}, func() {
+	res := simrt.Run(simrt.Config{Budget: 30_000_000, Chooser: ch, RecordSwitchPairs: 4096}, func() {
 		// ---- set-up, as a server does at start-up: ordinary happens-before to the client tasks
 		cc, err := sut.Compile(cs.Bundle)
 		if err != nil {
@@ -217,18 +257,25 @@ func c09Run(cs *c09One, replay bool) c09Outcome {
 		dataMaps, ijMaps := mk()
 		refData, refIJ := mk()
 		mkCat := func(c *sut.Compiled) soymsg.Bundle {
+			if cs.CatKind == faults.KindPO {
+				if b, ok := faults.POBundle(c.Msgs); ok {
+					return b // the repository's own PO bundle, shared by all tasks
+				}
+			}
 			return &roBundle{msgs: faults.NewBundle(faults.BundleKind(cs.CatKind%3), c.Msgs).Msgs}
 		}
 		cat, refCat := mkCat(cc), mkCat(ref)
+		shared := sharedRenderers(cs, cc, ijMaps, cat)
+		refShared := sharedRenderers(cs, ref, refIJ, refCat)
 		for _, t := range cs.Tasks {
 			for _, op := range t {
-				if op.Op == "render" && (op.Data >= len(dataMaps) || op.IJ >= len(ijMaps)) {
+				if (op.Op == "render" || op.Op == "render-shared") && (op.Data >= len(dataMaps) || op.IJ >= len(ijMaps)) {
 					invalid = "op refers to missing data"
 					return
 				}
 				k := opKey(op)
 				if _, ok := refs[k]; !ok {
-					refs[k] = execOp(op, ref, refData, refIJ, refCat)
+					refs[k] = execOp(op, ref, refData, refIJ, refCat, refShared)
 				}
 			}
 		}
@@ -242,7 +289,7 @@ func c09Run(cs *c09One, replay bool) c09Outcome {
 			simrt.Spawn(fmt.Sprintf("client%d", ti), func() {
 				defer wg.Done()
 				for oi, op := range cs.Tasks[ti] {
-					results[ti][oi] = execOp(op, cc, dataMaps, ijMaps, cat)
+					results[ti][oi] = execOp(op, cc, dataMaps, ijMaps, cat, shared)
 				}
 			})
 		}
@@ -363,7 +410,7 @@ func raceLogSize(prefix string) (int64, string) {
 func c09Generate(c *wk.Ctx, run, i int) *c09One {
 	r := simrt.NewRNG(c.UnitSeed(run, uint64(1000+i)))
 	gc := gen.Generate(c.UnitSeed(run, uint64(2000+i)), c09Opts())
-	cs := &c09One{Bundle: gc, CatKind: r.Intn(3), Logger: r.Intn(3) == 0}
+	cs := &c09One{Bundle: gc, CatKind: []int{0, 1, 2, faults.KindPO, faults.KindPO}[r.Intn(5)], Logger: r.Intn(3) == 0}
 	switch r.Intn(4) {
 	case 1:
 		cs.Obligatory = []string{"vbang"}
@@ -385,8 +432,10 @@ func c09Generate(c *wk.Ctx, run, i int) *c09One {
 				e = gc.Entries[r.Intn(len(gc.Entries))]
 			}
 			switch x := r.Intn(100); {
-			case x < 68:
+			case x < 50:
 				ops = append(ops, c09Op{Op: "render", Template: e.Template, Data: e.Data, IJ: e.IJ, Cat: useCat && r.Intn(4) != 0})
+			case x < 68:
+				ops = append(ops, c09Op{Op: "render-shared", Template: e.Template, Data: e.Data, IJ: e.IJ, Cat: useCat})
 			case x < 84:
 				ops = append(ops, c09Op{Op: "js", File: r.Intn(4), ES6: r.Intn(2) == 0, Cat: useCat && r.Intn(2) == 0})
 			case x < 93:
@@ -494,6 +543,9 @@ func C09(c *wk.Ctx) {
 			}
 			if cs.Logger {
 				u.Counters["runs_with_logger"]++
+			}
+			if cs.CatKind == faults.KindPO {
+				u.Counters["runs_with_pomsg_bundle"]++
 			}
 			for _, t := range cs.Tasks {
 				for _, op := range t {
